@@ -4,6 +4,7 @@ use std::convert::Infallible;
 
 use full_moon::{
     ast::{self, Ast},
+    node::Node,
     visitors::Visitor,
 };
 
@@ -57,7 +58,15 @@ struct AlmostSwappedVisitor {
 
 struct AlmostSwap {
     names: (String, String),
+    tokens: (Vec<String>, Vec<String>),
     range: (usize, usize),
+}
+
+// The code of a node token by token: `a or b` and `aorb` print the same once trivia is gone.
+fn code_tokens<N: Node>(node: N) -> Vec<String> {
+    node.tokens()
+        .map(|token| token.token().to_string())
+        .collect()
 }
 
 impl Visitor for AlmostSwappedVisitor {
@@ -78,11 +87,16 @@ impl Visitor for AlmostSwappedVisitor {
 
                         let expr_text = purge_trivia(expr).to_string().trim().to_owned();
                         let var_text = purge_trivia(var).to_string().trim().to_owned();
+                        let expr_tokens = code_tokens(expr);
+                        let var_tokens = code_tokens(var);
 
                         if let Some(last_swap) = last_swap.take() {
-                            if last_swap.names.0 == expr_text && last_swap.names.1 == var_text {
+                            if last_swap.tokens.0 == expr_tokens
+                                && last_swap.tokens.1 == var_tokens
+                            {
                                 self.almost_swaps.push(AlmostSwap {
                                     names: last_swap.names.to_owned(),
+                                    tokens: last_swap.tokens,
                                     range: (last_swap.range.0, expr_end),
                                 });
 
@@ -92,6 +106,7 @@ impl Visitor for AlmostSwappedVisitor {
 
                         last_swap = Some(AlmostSwap {
                             names: (var_text, expr_text),
+                            tokens: (var_tokens, expr_tokens),
                             range: range(stmt),
                         });
 
